@@ -17,6 +17,23 @@ type pathState struct {
 	Gen      int
 	BlockGen map[*ssa.BasicBlock]int
 	Visits   map[*ssa.BasicBlock]int // visits since the enclosing loop's header was last re-entered
+	// Inlining of helper functions that are not part of the confirmed tree (see EnumLits): the frames to return to,
+	// the arguments bound to the inlined callee's parameters and the values returned by finished inlined calls.
+	Stack []inlFrame
+	Bind  map[*ssa.Parameter]ssa.Value
+	Ret   map[*ssa.Call][]ssa.Value
+	// Resume marks the positions of Path at which a caller's block was re-appended after an inlined call returned
+	// (so that the successor's phis see the right predecessor); such an entry is not an arrival at the block.
+	Resume map[int]bool
+	// Over replaces a boolean comparison that is returned as a value by the constant it has on this path (see
+	// EnumLits: `return a < b` is enumerated as `if a < b { return true }; return false`).
+	Over map[ssa.Value]ssa.Value
+}
+
+type inlFrame struct {
+	call  *ssa.Call
+	block *ssa.BasicBlock
+	idx   int
 }
 
 func (ps *pathState) clone() *pathState {
@@ -38,6 +55,33 @@ func (ps *pathState) clone() *pathState {
 			n.BlockGen[k] = v
 		}
 	}
+	if len(ps.Stack) > 0 {
+		n.Stack = append([]inlFrame(nil), ps.Stack...)
+	}
+	if len(ps.Bind) > 0 {
+		n.Bind = make(map[*ssa.Parameter]ssa.Value, len(ps.Bind))
+		for k, v := range ps.Bind {
+			n.Bind[k] = v
+		}
+	}
+	if len(ps.Ret) > 0 {
+		n.Ret = make(map[*ssa.Call][]ssa.Value, len(ps.Ret))
+		for k, v := range ps.Ret {
+			n.Ret[k] = v
+		}
+	}
+	if len(ps.Over) > 0 {
+		n.Over = make(map[ssa.Value]ssa.Value, len(ps.Over))
+		for k, v := range ps.Over {
+			n.Over[k] = v
+		}
+	}
+	if len(ps.Resume) > 0 {
+		n.Resume = make(map[int]bool, len(ps.Resume))
+		for k, v := range ps.Resume {
+			n.Resume[k] = v
+		}
+	}
 	n.Path = append([]*ssa.BasicBlock(nil), ps.Path...)
 	n.Calls = append([]ssa.CallInstruction(nil), ps.Calls...)
 	if len(ps.Havoc) > 0 {
@@ -52,7 +96,7 @@ func (ps *pathState) clone() *pathState {
 // Pred returns the predecessor of block b on this path (nil if b is the first block).
 func (ps *pathState) Pred(b *ssa.BasicBlock) *ssa.BasicBlock {
 	for i := len(ps.Path) - 1; i > 0; i-- {
-		if ps.Path[i] == b {
+		if ps.Path[i] == b && !ps.Resume[i] {
 			return ps.Path[i-1]
 		}
 	}
@@ -62,8 +106,31 @@ func (ps *pathState) Pred(b *ssa.BasicBlock) *ssa.BasicBlock {
 // Resolve follows loads of local cells and phis (using the path's predecessor) to the value that is current
 // on this path. in is the instruction at which v is used.
 func (ps *pathState) Resolve(v ssa.Value) ssa.Value {
-	for i := 0; i < 20; i++ {
+	for i := 0; i < 40; i++ {
+		if o, ok := ps.Over[v]; ok {
+			return o
+		}
 		switch x := v.(type) {
+		case *ssa.Parameter:
+			if b, ok := ps.Bind[x]; ok && b != v {
+				v = b
+				continue
+			}
+			return v
+		case *ssa.Extract:
+			if c, ok := x.Tuple.(*ssa.Call); ok {
+				if rs, ok := ps.Ret[c]; ok && x.Index < len(rs) {
+					v = rs[x.Index]
+					continue
+				}
+			}
+			return v
+		case *ssa.Call:
+			if rs, ok := ps.Ret[x]; ok && len(rs) == 1 {
+				v = rs[0]
+				continue
+			}
+			return v
 		case *ssa.UnOp:
 			if x.Op.String() != "*" {
 				return v
